@@ -26,6 +26,7 @@
 #include "scientificinfo.h"
 
 #define CPCACONVERGENCE 1e-18
+#define CPCAMAXITERATIONS 10000 /* NIPALS iterations allowed per component */
 
 /**
  * CPCA model data structure.
